@@ -3,6 +3,10 @@
 // Every run builds a real core.BuildGraph (NewGraph / NewBuildTarget / AddTarget, dependencies
 // resolved through the verif hook), runs the unexported cycleDetector once and observes
 // AllTargets(), every target's Dependencies() and the returned errCycle.Cycle.
+//
+// Sessions (second half of this file): ONE graph and ONE cycleDetector are kept while targets are
+// added, dependencies declared (AddDependency) and resolved, and Check is called repeatedly in
+// between - what BuildState does with state.progress.cycleDetector each time the build goes idle.
 package main
 
 import (
@@ -21,6 +25,9 @@ import (
 type input struct {
 	Labels []string `json:"labels"`
 	Deps   [][]int  `json:"deps"`
+	// a session (see below); Deps is unused then
+	Steps    []event `json:"steps,omitempty"`
+	ViaState bool    `json:"via_state,omitempty"`
 }
 
 type observed struct {
@@ -168,6 +175,364 @@ func edges(deps [][]int) int {
 		k += len(d)
 	}
 	return k
+}
+
+
+// ---- sessions: one graph, one detector, several runs of Check ---------------------------------
+
+// event: one thing done to the graph or to the detector. Targets are numbered in the order in which
+// they are added; the k-th added target gets Labels[k]. A declared dependency names a label, which
+// may belong to a target added earlier, later or never.
+type event struct {
+	Op string `json:"op"` // add | declare | resolve | stop | check
+	A  int    `json:"a,omitempty"`
+	B  int    `json:"b,omitempty"`
+}
+
+// checkObs: what one Check of the session saw and returned.
+type checkObs struct {
+	Order      []int   `json:"order"`      // AllTargets()
+	Deps       [][]int `json:"resolved"`   // Dependencies() of every target
+	Declared   []int   `json:"declared_n"` // len(DeclaredDependencies()) of every target
+	Found      bool    `json:"reported"`
+	Cycle      []int   `json:"cycle,omitempty"`
+	FreshFound bool    `json:"-"` // a detector made for this one call, on the same graph at the same moment
+	FreshCycle []int   `json:"-"`
+	Stopped    bool    `json:"stopped,omitempty"`
+	Edges      [][]int `json:"-"` // what the harness resolved so far (its own bookkeeping)
+	Unresolved int     `json:"unresolved"` // declared dependencies without a resolved target at this moment
+}
+
+type sessionObs struct {
+	Pos    []int // per step: for a resolve, where the dependency landed in Dependencies()
+	Checks []checkObs
+}
+
+func insertAt(xs []int, pos, x int) []int {
+	out := make([]int, 0, len(xs)+1)
+	out = append(out, xs[:pos]...)
+	out = append(out, x)
+	return append(out, xs[pos:]...)
+}
+
+func eqInts(a, b []int) bool {
+	if len(a) != len(b) {
+		return false
+	}
+	for i := range a {
+		if a[i] != b[i] {
+			return false
+		}
+	}
+	return true
+}
+
+func runSession(in input) sessionObs {
+	var graph *core.BuildGraph
+	var det *core.VerifC06Detector
+	if in.ViaState {
+		// the detector NewBuildState makes, the one checkForCycles() runs
+		state := core.NewDefaultBuildState()
+		graph = state.Graph
+		det = core.VerifC06StateDetector(state)
+	} else {
+		graph = core.NewGraph()
+		det = core.VerifC06NewDetector(graph)
+	}
+	ts := []*core.BuildTarget{}
+	idx := map[*core.BuildTarget]int{}
+	edges := [][]int{}
+	declared := []map[int]bool{} // labels declared by each target
+	resolvedTo := []map[int]bool{}
+	stopped := false
+	toIdx := func(l []*core.BuildTarget) []int {
+		out := make([]int, len(l))
+		for i, t := range l {
+			k, ok := idx[t]
+			if !ok {
+				panic("target not of this graph")
+			}
+			out[i] = k
+		}
+		return out
+	}
+	label := func(k int) core.BuildLabel { return core.ParseBuildLabel(in.Labels[k], "") }
+	var o sessionObs
+	o.Pos = make([]int, len(in.Steps))
+	for si, e := range in.Steps {
+		switch e.Op {
+		case "add":
+			k := len(ts)
+			t := core.NewBuildTarget(label(k))
+			graph.AddTarget(t)
+			ts = append(ts, t)
+			idx[t] = k
+			edges = append(edges, []int{})
+			declared = append(declared, map[int]bool{})
+			resolvedTo = append(resolvedTo, map[int]bool{})
+		case "declare":
+			if e.A == e.B {
+				panic("session: AddDependency of a target on itself is fatal in please")
+			}
+			ts[e.A].AddDependency(label(e.B))
+			declared[e.A][e.B] = true
+		case "resolve":
+			before := toIdx(ts[e.A].Dependencies())
+			core.VerifC06Resolve(ts[e.A], ts[e.B])
+			after := toIdx(ts[e.A].Dependencies())
+			pos := 0
+			for pos < len(before) && before[pos] == after[pos] {
+				pos++
+			}
+			if !eqInts(insertAt(before, pos, e.B), after) {
+				panic(fmt.Sprintf("harness: resolving %d -> %d turned Dependencies() %v into %v", e.A, e.B, before, after))
+			}
+			o.Pos[si] = pos
+			edges[e.A] = append(edges[e.A], e.B)
+			declared[e.A][e.B] = true
+			resolvedTo[e.A][e.B] = true
+		case "stop":
+			det.Stop()
+			stopped = true
+		case "check":
+			var c checkObs
+			c.Order = toIdx(graph.AllTargets())
+			c.Deps = make([][]int, len(ts))
+			c.Declared = make([]int, len(ts))
+			c.Edges = make([][]int, len(ts))
+			for i, t := range ts {
+				c.Deps[i] = toIdx(t.Dependencies())
+				c.Declared[i] = len(t.DeclaredDependencies())
+				c.Edges[i] = append([]int{}, edges[i]...)
+				if !sameMultiset(c.Deps[i], edges[i]) {
+					panic(fmt.Sprintf("harness: Dependencies() of %s is %v, resolved %v", in.Labels[i], c.Deps[i], edges[i]))
+				}
+				if c.Declared[i] != len(declared[i]) {
+					panic(fmt.Sprintf("harness: %s has %d declared dependencies, declared %d", in.Labels[i], c.Declared[i], len(declared[i])))
+				}
+				for l := range declared[i] {
+					if !resolvedTo[i][l] {
+						c.Unresolved++
+					}
+				}
+			}
+			found, cyc := det.Check()
+			c.Found, c.Cycle = found, toIdx(cyc)
+			ff, fc := core.VerifC06Check(graph)
+			c.FreshFound, c.FreshCycle = ff, toIdx(fc)
+			c.Stopped = stopped
+			o.Checks = append(o.Checks, c)
+		default:
+			panic("session: unknown op " + e.Op)
+		}
+	}
+	return o
+}
+
+// sessionOracle: every Check of the session against an independent cycle test (Kahn) on the edges the
+// harness resolved up to that moment, and against a detector made fresh for that one call.
+func sessionOracle(in input, k int, c checkObs) (string, string) {
+	suffix := ""
+	if k > 0 {
+		suffix = "-on-rerun"
+	}
+	if c.Unresolved > 0 {
+		suffix += "-with-unresolved-deps"
+	}
+	if c.Stopped {
+		if c.Found {
+			return "reported-after-stop", fmt.Sprintf("Check %d reported %v after Stop()", k, c.Cycle)
+		}
+		return "", ""
+	}
+	class, what := oracle(input{Labels: in.Labels, Deps: c.Edges}, observed{Order: c.Order, Deps: c.Deps, Found: c.Found, Cycle: c.Cycle})
+	if class != "" {
+		return class + suffix, fmt.Sprintf("Check %d of the session: %s", k, what)
+	}
+	if c.Found != c.FreshFound || !eqInts(c.Cycle, c.FreshCycle) {
+		return "kept-detector-differs-from-fresh", fmt.Sprintf("Check %d of the kept detector returned %v %v, a new detector on the same graph %v %v",
+			k, c.Found, c.Cycle, c.FreshFound, c.FreshCycle)
+	}
+	return "", ""
+}
+
+func coqSession(in input, o sessionObs) string {
+	evs := make([]string, len(in.Steps))
+	k := 0
+	for i, e := range in.Steps {
+		switch e.Op {
+		case "add":
+			evs[i] = "EAddTarget"
+		case "declare":
+			evs[i] = lib.App("EDeclare", lib.Nat(e.A), lib.Nat(e.B))
+		case "resolve":
+			evs[i] = lib.App("EResolve", lib.Nat(e.A), lib.Nat(e.B), lib.Nat(o.Pos[i]))
+		case "stop":
+			evs[i] = "EStop"
+		case "check":
+			evs[i] = lib.App("ECheck", natList(o.Checks[k].Order))
+			k++
+		}
+	}
+	obs := make([]string, len(o.Checks))
+	for i, c := range o.Checks {
+		rows := make([]string, len(c.Deps))
+		for j, r := range c.Deps {
+			rows[j] = natList(r)
+		}
+		obs[i] = "(" + lib.List(rows) + ", " + natList(c.Declared) + ", " + lib.Opt(c.Found, natList(c.Cycle)) + ")"
+	}
+	return lib.App("CSession", lib.List(evs), lib.List(obs))
+}
+
+func sessionJSON(in input, o sessionObs, upto int) map[string]any {
+	m := map[string]any{"labels": in.Labels, "steps": in.Steps, "checks": o.Checks}
+	if in.ViaState {
+		m["via_state"] = true
+	}
+	if upto >= 0 {
+		m["failing_check"] = upto
+	}
+	return m
+}
+
+func ev(op string, a, b int) event { return event{Op: op, A: a, B: b} }
+
+// twoPhaseSession: n targets added up front; st[i*n+j] says what happens to the dependency i -> j:
+// 0 nothing, 1 declared and never resolved, 2 resolved before the first Check, 3 declared before the
+// first Check and resolved between the first and the second. (i == j: 1 is not possible.)
+func twoPhaseSession(n int, st []int) []event {
+	steps := []event{}
+	for i := 0; i < n; i++ {
+		steps = append(steps, ev("add", 0, 0))
+	}
+	for i := 0; i < n; i++ {
+		for j := 0; j < n; j++ {
+			switch st[i*n+j] {
+			case 1:
+				steps = append(steps, ev("declare", i, j))
+			case 2:
+				steps = append(steps, ev("resolve", i, j))
+			case 3:
+				if i != j {
+					steps = append(steps, ev("declare", i, j))
+				}
+			}
+		}
+	}
+	steps = append(steps, ev("check", 0, 0))
+	for i := 0; i < n; i++ {
+		for j := 0; j < n; j++ {
+			if st[i*n+j] == 3 {
+				steps = append(steps, ev("resolve", i, j))
+			}
+		}
+	}
+	return append(steps, ev("check", 0, 0))
+}
+
+// randomSession: a random graph (the shapes of randomGraph) is reached step by step: targets are added
+// over time, a dependency may be declared long before it is resolved, some are never resolved, some
+// name labels that never become targets; Check runs again and again in between.
+func randomSession(r *lib.Rng) (string, int, []event) {
+	kind, deps := randomGraph(r)
+	n := len(deps)
+	for n > 9 { // keep sessions small: drop the highest targets
+		n--
+		deps = deps[:n]
+		for i := range deps {
+			kept := []int{}
+			for _, d := range deps[i] {
+				if d < n {
+					kept = append(kept, d)
+				}
+			}
+			deps[i] = kept
+		}
+	}
+	phantoms := r.Intn(3) // labels that never become targets
+	type action struct {
+		e       event
+		needs   []int // targets that must exist
+		after   int   // index of an action that must have run, -1 if none
+		done    bool
+	}
+	acts := []*action{}
+	for i := 0; i < n; i++ {
+		acts = append(acts, &action{e: ev("add", 0, 0), after: -1})
+	}
+	neverDen := r.Range(3, 8)
+	for a := 0; a < n; a++ {
+		for _, b := range deps[a] {
+			switch {
+			case a != b && r.Chance(1, neverDen): // declared, never resolved
+				acts = append(acts, &action{e: ev("declare", a, b), needs: []int{a}, after: -1})
+			case a != b && r.Bool(): // declared first, resolved later
+				acts = append(acts, &action{e: ev("declare", a, b), needs: []int{a}, after: -1})
+				acts = append(acts, &action{e: ev("resolve", a, b), needs: []int{a, b}, after: len(acts) - 1})
+			default:
+				acts = append(acts, &action{e: ev("resolve", a, b), needs: []int{a, b}, after: -1})
+			}
+		}
+	}
+	for p := 0; p < phantoms; p++ {
+		for k := r.Range(1, 2); k > 0; k-- {
+			a := r.Intn(n)
+			acts = append(acts, &action{e: ev("declare", a, n+p), needs: []int{a}, after: -1})
+		}
+	}
+	// the targets are added in the order 0..n-1 (that is what their number means); which graph target
+	// gets which number was already random. Run the actions in a random admissible order.
+	steps := []event{}
+	added := 0
+	checkDen := r.Range(2, 6)
+	remaining := len(acts)
+	stopAt := -1
+	if r.Chance(1, 12) {
+		stopAt = r.Intn(remaining + 1)
+	}
+	for remaining > 0 {
+		if stopAt == remaining {
+			steps = append(steps, ev("stop", 0, 0), ev("check", 0, 0))
+		}
+		enabled := []*action{}
+		for i, a := range acts {
+			if a.done {
+				continue
+			}
+			if a.e.Op == "add" {
+				if i == added { // the next target
+					enabled = append(enabled, a)
+					if r.Bool() { // bias towards having targets early
+						enabled = append(enabled, a)
+					}
+				}
+				continue
+			}
+			ok := a.after < 0 || acts[a.after].done
+			for _, t := range a.needs {
+				ok = ok && t < added
+			}
+			if ok {
+				enabled = append(enabled, a)
+			}
+		}
+		a := lib.Pick(r, enabled)
+		a.done = true
+		remaining--
+		if a.e.Op == "add" {
+			added++
+		}
+		steps = append(steps, a.e)
+		if added > 0 && r.Chance(1, checkDen) {
+			steps = append(steps, ev("check", 0, 0))
+		}
+	}
+	if stopAt == 0 {
+		steps = append(steps, ev("stop", 0, 0))
+	}
+	steps = append(steps, ev("check", 0, 0))
+	return kind, n + phantoms, steps
 }
 
 // ---- label pools -------------------------------------------------------------------------------
